@@ -95,9 +95,23 @@ PROPS = {
             dict(name="TestKnownProbes", quick=1, thorough=1, shards_thorough=1, rapid=False),
         ],
     ),
+    "C11": dict(
+        pkg="c11", level="fault_enumeration",
+        technique="fault injection at every position of generated logs (rapid) plus complete enumeration of the small sub-space, oracle = prefix/completeness rules R1-R7",
+        level_text="The deciding step is the placement of an injected fault (callback error, cancellation, store/driver/HTTP failure, undecodable row) at every position of a log, for every store configuration and start offset: enumerated completely for logs of up to 3 (quick) / 6 (thorough) events and sampled by rapid for logs of up to 25.",
+        level_note="SQLite read errors are injected through the guarded database-opener hook and a wrapping database/sql driver; durable-streams faults through an in-process RoundTripper. Durable-streams replay batches smaller than a chunk are a listed known finding and are not generated (probed separately).",
+        assumptions=COMMON_ASSUME + ["database/sql surfaces a driver Rows.Next error through Rows.Err", "the in-process durable-streams reference server is faithful"],
+        tests=[
+            dict(name="TestReplayMemory", quick=6000, thorough=40000, shards_thorough=4),
+            dict(name="TestReplaySQLite", quick=500, thorough=5000, shards_thorough=8, shrinktime="15s"),
+            dict(name="TestReplayDurable", quick=1500, thorough=20000, shards_thorough=4, shrinktime="15s"),
+            dict(name="TestEnumSmall", quick=1, thorough=1, shards_quick=4, shards_thorough=16, rapid=False),
+            dict(name="TestKnownProbes", quick=1, thorough=1, shards_thorough=1, rapid=False),
+        ],
+    ),
 }
 
-HOOK_COMMITS = []
+HOOK_COMMITS = ["99604d0"]
 
 _NOT_YET = "check not built yet in this session (work in progress; see DESIGN.md section 9 build order)"
 NOT_APPLICABLE = {("C%02d" % i): _NOT_YET for i in range(1, 21) if ("C%02d" % i) not in PROPS}
